@@ -241,7 +241,13 @@ class Enumerator(object):
                         continue
                     for q in self.run(s['init'], p):
                         if not q.done:
-                            self.ev.bind_pat(s['pat'], q.value, q.env)
+                            val = q.value
+                            pat = s['pat']
+                            if pat.get('k') == 'Bind' and 'Mut' in pat.get('mode', '') and val is not None and val[0] == 'call' and len(val[2]) == 0:
+                                # `let mut x = T::new()`: a fresh mutable object keeps its own identity
+                                q.effects.append('let %s = %s' % (pat['name'], S.show(val)))
+                                val = None
+                            self.ev.bind_pat(s['pat'], val, q.env)
                         nxt.append(q)
                 elif sk in ('Semi', 'ExprStmt'):
                     if H.is_log(s['e']):
